@@ -307,6 +307,8 @@ class DriverBase:
     def _on_disconnect_common(self, sid, reason):
         self.events.append((sid, 'disconnect', reason))
         self.trace.append(('ev', sid, 'disconnect', reason))
+        if self.raise_in_disconnect == 'typeerror':
+            raise TypeError('disconnect handler raises TypeError')      # also exercises the legacy one-argument fallback
         if self.raise_in_disconnect:
             raise RuntimeError('disconnect handler raises')
 
